@@ -19,9 +19,18 @@ func GoTestFor(cfg *world.Config, hist []world.Op, sig, what, detail string) str
 	var sb strings.Builder
 	sb.WriteString("package mast_test\n\n// Replay of a violation found by /verif (no explorer needed).\n")
 	fmt.Fprintf(&sb, "// signature: %s\n// what: %s\n// observed by the check: %s\n", sig, what, strings.ReplaceAll(detail, "\n", " "))
-	sb.WriteString("import (\n\t\"context\"\n\t\"fmt\"\n\t\"testing\"\n\n\t\"github.com/jrhy/mast\"\n)\n\n")
+	sb.WriteString("import (\n\t\"context\"\n\t\"encoding/json\"\n\t\"fmt\"\n\t\"testing\"\n\n\t\"github.com/jrhy/mast\"\n)\n\nvar _ = json.Marshal\n\n")
 	sb.WriteString("type LKey struct {\n\tK int\n\tL uint8\n}\n\nfunc (a LKey) Layer(bf uint) uint8 { return a.L }\nfunc (a LKey) Order(o mast.Key) int {\n\tb := o.(LKey)\n\tswitch {\n\tcase a.K < b.K:\n\t\treturn -1\n\tcase a.K > b.K:\n\t\treturn 1\n\t}\n\treturn 0\n}\n\n")
 	sb.WriteString("type SKey struct {\n\tA string\n\tB int\n}\ntype SVal struct {\n\tAsdf string\n\tQ    bool\n}\ntype TVal struct {\n\tTags []string       `json:\",omitempty\"`\n\tM    map[string]int `json:\",omitempty\"`\n}\n\n")
+	faulty := false
+	for _, op := range hist {
+		if op.Kind == world.OpPersistFail {
+			faulty = true
+		}
+	}
+	if faulty {
+		sb.WriteString("// faultyStore fails the Store of every node whose name is in class `class` (sum of the name's bytes mod 3).\ntype faultyStore struct {\n\tmast.Persist\n\tclass int\n}\n\nfunc (f *faultyStore) Store(ctx context.Context, name string, b []byte) error {\n\ts := 0\n\tfor i := 0; i < len(name); i++ {\n\t\ts += int(name[i])\n\t}\n\tif s%3 == f.class {\n\t\treturn fmt.Errorf(\"injected store fault\")\n\t}\n\treturn f.Persist.Store(ctx, name, b)\n}\n\n")
+	}
 	sb.WriteString("func TestVerifReplay(t *testing.T) {\n\tctx := context.Background()\n")
 	if cfg.InMemory {
 		sb.WriteString("\tm0 := mast.NewInMemory()\n\ttrees := []*mast.Mast{&m0, nil, nil}\n")
@@ -42,6 +51,9 @@ func GoTestFor(cfg *world.Config, hist []world.Op, sig, what, detail string) str
 			reg = ", UnmarshalerUsesRegisteredTypes: true"
 		}
 		fmt.Fprintf(&sb, "\tcfg := &mast.RemoteConfig{KeysLike: %s, ValuesLike: %s, StoreImmutablePartsWith: mast.NewInMemoryStore()%s%s}\n", lit(cfg.KeysLike), lit(cfg.ValsLike), cache, reg)
+		if faulty {
+			sb.WriteString("\tfs := &faultyStore{Persist: cfg.StoreImmutablePartsWith, class: -1}\n\tcfg.StoreImmutablePartsWith = fs\n\tmarshalCalls, failMarshalAt := 0, -1\n\tcfg.Marshal = func(v interface{}) ([]byte, error) {\n\t\tmarshalCalls++\n\t\tif marshalCalls-1 == failMarshalAt {\n\t\t\treturn nil, fmt.Errorf(\"injected marshal fault\")\n\t\t}\n\t\treturn json.Marshal(v)\n\t}\n")
+		}
 		fmt.Fprintf(&sb, "\tm0, err := mast.NewRoot(&mast.CreateRemoteOptions{BranchFactor: %d, NodeFormat: %s}).LoadMast(ctx, cfg)\n\tif err != nil {\n\t\tt.Fatal(err)\n\t}\n\ttrees := []*mast.Mast{m0, nil, nil}\n\troots := []*mast.Root{nil, nil}\n\t_ = roots\n", cfg.BF, nf)
 	}
 	for i, op := range hist {
@@ -57,6 +69,12 @@ func GoTestFor(cfg *world.Config, hist []world.Op, sig, what, detail string) str
 			fmt.Fprintf(&sb, "\tfmt.Println(\"iter ->\", trees[%d].Iter(ctx, func(k, v interface{}) error { return nil }))\n", op.A)
 		case world.OpPersist:
 			fmt.Fprintf(&sb, "\t{\n\t\tr, err := trees[%d].MakeRoot(ctx)\n\t\tfmt.Printf(\"MakeRoot -> %%+v %%v\\n\", r, err)\n\t}\n", op.A)
+		case world.OpPersistFail:
+			if op.V >= 10 {
+				fmt.Fprintf(&sb, "\t{\n\t\tmarshalCalls, failMarshalAt = 0, %d\n\t\tr, err := trees[%d].MakeRoot(ctx)\n\t\tfailMarshalAt = -1\n\t\tfmt.Printf(\"MakeRoot (Marshal call #%d failing) -> %%+v %%v\\n\", r, err)\n\t}\n", op.V-10, op.A, op.V-10)
+			} else {
+				fmt.Fprintf(&sb, "\t{\n\t\tfs.class = %d\n\t\tr, err := trees[%d].MakeRoot(ctx)\n\t\tfs.class = -1\n\t\tfmt.Printf(\"MakeRoot (stores of name class %d failing) -> %%+v %%v\\n\", r, err)\n\t}\n", op.V, op.A, op.V)
+			}
 		case world.OpKeep:
 			fmt.Fprintf(&sb, "\t{\n\t\tr, err := trees[%d].MakeRoot(ctx)\n\t\tfmt.Printf(\"MakeRoot -> %%+v %%v\\n\", r, err)\n\t\troots[%d] = r\n\t}\n", op.A, op.B)
 		case world.OpReload, world.OpReloadJSON:
